@@ -25,8 +25,10 @@ WSU = "http://docs.oasis-open.org/wss/2004/01/oasis-200401-wss-wssecurity-utilit
 XSD_DT = re.compile(r"^-?\d{4,}-\d\d-\d\dT\d\d:\d\d:\d\d(\.\d+)?(Z|[-+]\d\d:\d\d)?$")
 
 
-def make_wsdl(nparts, complex_idx):
-    """nparts header parts H0.. in namespaces HNS[i]; part complex_idx (if any) is a complex type."""
+def make_wsdl(nparts, complex_idx, local_prefixes=False):
+    """nparts header parts H0.. in namespaces HNS[i]; part complex_idx (if any) is a complex type.
+    local_prefixes: no prefix for a header namespace is in scope of its schema (the schema uses it as its default
+    namespace; the message part declares the prefix it needs on itself)."""
     extra = []
     for i in range(nparts):
         if i == complex_idx:
@@ -34,10 +36,16 @@ def make_wsdl(nparts, complex_idx):
                     '<xsd:element name="b" type="xsd:int" minOccurs="0"/></xsd:sequence></xsd:complexType></xsd:element>' % i)
         else:
             body = '<xsd:element name="H%d" type="xsd:string"/>' % i
-        extra.append('<xsd:schema targetNamespace="%s" elementFormDefault="qualified" '
-                     'xmlns:xsd="http://www.w3.org/2001/XMLSchema">%s</xsd:schema>' % (HNS[i], body))
+        extra.append('<xsd:schema targetNamespace="%s" elementFormDefault="qualified" %s'
+                     'xmlns:xsd="http://www.w3.org/2001/XMLSchema">%s</xsd:schema>'
+                     % (HNS[i], 'xmlns="%s" ' % HNS[i] if local_prefixes else "", body))
     w = wsdlkit.wsdl_doc('<xsd:element name="f" type="xsd:string"/>', "f", None, extra_schemas="".join(extra),
                          header_parts=[("element", "h%d:H%d" % (i, i)) for i in range(nparts)]).decode()
+    if local_prefixes:
+        for i in range(nparts):
+            w = w.replace('<wsdl:part name="h" element="h%d:H%d"/>' % (i, i),
+                          '<wsdl:part name="h" xmlns:h%d="%s" element="h%d:H%d"/>' % (i, HNS[i], i, i), 1)
+        return w.encode()
     decl = " ".join('xmlns:h%d="%s"' % (i, HNS[i]) for i in range(nparts))
     return w.replace("<wsdl:definitions ", "<wsdl:definitions %s " % decl, 1).encode()
 
@@ -196,7 +204,7 @@ def run(ctx):
     reqs, reals, metas = [], [], []
     for nparts in range(0, 4):
         for complex_idx in ([None] + list(range(nparts)))[:ctx.pick(2, 4)]:
-            w = make_wsdl(nparts, complex_idx)
+            w = make_wsdl(nparts, complex_idx, local_prefixes=rng.random() < 0.4)
             wcfgs = wsse_configs(rng, ctx)
             for pyval, mj, _ in shapes(rng, nparts, complex_idx, ctx):
                 wc = rng.choice(wcfgs)
